@@ -1,5 +1,7 @@
 """C19 - alternative spellings of the grammar language are interchangeable."""
+from contracts import spellings
 from pyvc.report import Report
+from .common import run_fragments
 from . import wiring
 
 
@@ -9,9 +11,12 @@ def run(tier, seed):
                      'abstract operands, to objects that emit TEXTUALLY IDENTICAL code for every child-flag combination and both conventions (identical text => '
                      'identical behaviour). Ground: alternative separators, statement separators, comments/blank lines, line breaks around operators, redundant '
                      'parentheses, ignore/ignored, bare expression vs start = expr give identical syntax trees; unparenthesised operators group as grammar.txt says. '
-                     'The step from these finitely many renderings to "every combination of layouts on every grammar" rests on C01-C05 (meaning of the '
+                     'Deductive: for every operator and constructor spelling the object the front end builds is proved, over abstract operands, to have the meaning the documentation gives that spelling (class contract with the documented options). The step from these finitely many renderings to "every combination of layouts on every grammar" rests on C01-C05 (meaning of the '
                      'projections that discard layout) and C12 (the shipped parser IS grammar.txt) and is a paper argument.')
     wiring.spelling_obligations(rep, tier)
+    # the documented MEANING of each spelling, proved (all child behaviours) on what the front end builds for it: catches a mapping mistake
+    # that both spellings of a pair share (sugar constructors, the operator -> class table of the front end)
+    run_fragments(rep, spellings.SPELLED, tier)
     rep.assumptions.append('layout closure: the discarded/normalised positions of grammar.txt (wrap(...), LineSep, Comment/Space ignored, mixfix parentheses) make '
                            'ALL layouts equivalent by the contracts of Skip, Discard, Opt, Sep and operator tables (C01-C03, C02); only representatives are executed')
     return rep.finish()
